@@ -407,6 +407,13 @@ func (a *API) WalkOp(name string, nReplies int) ([]OpPath, *Walker, error) {
 	}
 	w := NewWalker(a.P)
 	w.LoopFuel = 6
+	// an operation that takes a list (passcodes, formats) is explored for lists of up to five elements: one more
+	// than the four slots a request has room for
+	for _, prm := range fn.Params {
+		if _, isSlice := prm.Type().Underlying().(*types.Slice); isSlice {
+			w.RangeCap = 5
+		}
+	}
 	up := a.P.SSAPkg("uhppote")
 	w.Inline = func(f *ssa.Function, d int) bool {
 		if f.Parent() != nil {
